@@ -21,6 +21,12 @@ JSON_PALETTE = [
     "2026-W01-4T00:00:00Z", "2026-01-01_00:00:00Z", "2026-01-01 00:00:00Z", "2026-01-01T00:00-05Z", "20260101T000000.000Z", "2026-001T00:00:00.0Z",
     "2026-01-01T00:00:00+00:00", "2026-01-01T00:00:00+0000", "2026-01-01T00:00:00-00:00", "2026-01-01T00:00:00.000000Z", "2026-01-01T00:00Z",
     "2026-01-01T00:00:00,0Z", "2026-01-01T00:00:00 Z", "2026-01-01T00:00:00ZZ", "2026-01-01T00:00:00UTC",
+    # spellings that other date parsers / formatters read or write and that round-trip through them (fractions of every width, an offset
+    # in front of the Z, sub-minute offsets, week and ordinal dates)
+    "2031-07-13T05:46:45.123456Z", "2031-07-13T05:46:45.000001Z", "2031-07-13T05:46:45.123Z", "2031-07-13T05:46:45.1Z", "2031-07-13T05:46:45.999999Z",
+    "2031-07-13T05:46:45+00:00Z", "2031-07-13T05:46:45-05:00Z", "2031-07-13T05:46:45+05:30Z", "2031-07-13T05:46:45+00:00:30Z",
+    "2031-07-13T05:46:45.123456+00:00Z", "2031-07-13T05:46:45+14:00Z", "2031-W28-7T05:46:45Z", "2031-194T05:46:45Z", "20310713T054645Z",
+    "2031-07-13T05:46Z", "2031-07-13T05Z", "2031-07-13Z", "2031-07-13T05:46:45.000000Z",
     # integers at machine-word boundaries
     2**31 - 1, 2**31, 2**32, 2**63 - 1, 2**63, 2**64 - 1, 10**19, -(2**63),
     # key lists whose entries' length errors cancel out
